@@ -7,7 +7,7 @@ use std::rc::Rc;
 
 use serde::{Deserialize, Serialize};
 
-use crate::cfg::AvailableValueMap;
+use crate::cfg::{AvailableValueMap, MathOp};
 use crate::parser::{
     CsrImm, HasRegisterSets, InstructionProperties, LabelString, LabelStringToken,
     RegisterProperties,
@@ -319,15 +319,23 @@ fn rule_perform_math_ops(
             (
                 Some(AvailableValue::OriginalRegisterWithScalar(new_reg, x)),
                 Some(AvailableValue::Constant(y)),
-            )
-            | (
-                Some(AvailableValue::Constant(x)),
-                Some(AvailableValue::OriginalRegisterWithScalar(new_reg, y)),
             ) => node
                 .inst()
                 .scalar_op()
                 .map(|op| op.operate(x, y))
                 .map(|z| AvailableValue::OriginalRegisterWithScalar(new_reg, z)),
+            // constant + (register + y) is register + (constant + y), but
+            // constant - (register + y) is not of that form
+            (
+                Some(AvailableValue::Constant(x)),
+                Some(AvailableValue::OriginalRegisterWithScalar(new_reg, y)),
+            ) => match node.inst().scalar_op() {
+                Some(op @ MathOp::Add) => Some(AvailableValue::OriginalRegisterWithScalar(
+                    new_reg,
+                    op.operate(x, y),
+                )),
+                _ => None,
+            },
             (_, _) => None,
         };
         if let Some(val) = result {
